@@ -377,6 +377,18 @@ func c13OneDoc(e *c13Env, idx int, d *c13Doc) {
 			cfg := &config.Config{DAGs: e.dir, WorkDir: e.dir, Executable: "/bin/false", LogDir: e.dir}
 			s := scheduler.New(cfg, c13Logger, newCronFake())
 			s.VerifTick(time.Date(2027, 3, 1, 12, 0, 0, 0, time.UTC))
+			// the same document arriving while the directory watcher runs (created, then rewritten)
+			done := make(chan any)
+			s.VerifStartWatcher(done)
+			time.Sleep(5 * time.Millisecond)
+			late := filepath.Join(e.dir, fmt.Sprintf("late%06d.yaml", idx))
+			_ = os.WriteFile(late, []byte("schedule: \"* * * * *\"\nsteps:\n  - name: a\n    command: \"true\"\n"), 0644)
+			time.Sleep(15 * time.Millisecond)
+			atomicWrite(late, string(d.bytes))
+			time.Sleep(25 * time.Millisecond)
+			s.VerifTick(time.Date(2027, 3, 1, 12, 1, 0, 0, time.UTC))
+			close(done)
+			os.Remove(late)
 		}))
 	}
 	// preconditions of accepted definitions must be evaluable without crashing
@@ -524,7 +536,7 @@ func c13Execute(e *c13Env, idx int, doc *c13Doc, d *dag.DAG, violate func(key, w
 }
 
 func c13Body(c *core.Ctx) {
-	n := c.Pick(24000, 1500000)
+	n := c.Pick(18000, 1500000)
 	root, err := os.MkdirTemp(c.Scratch, "c13-")
 	if err != nil {
 		c.Inconclusive("mkdtemp")
@@ -567,6 +579,6 @@ func init() {
 		Passes: func(tier string) []core.Pass {
 			return []core.Pass{{Name: "main", Mode: "load", Shards: 16, Timeout: 60 * time.Minute}}
 		},
-		Rule:        "Documents: valid definitions drawn from a grammar (plus a sub-grammar of quickly executable command-only definitions, a third of them with one mutation, so that the executed subset is large) covering every documented field (schedule in its three forms, env list/map, params, logDir, handlers, functions/call, sub-workflow, executor string/map/nested config, preconditions incl. re:, retry/repeat/continueOn, signalOnStop, mail/smtp, limits); 1-3 structural mutations of such a tree (type confusion scalar/list/map/null, delete, duplicate key, wrap in list/map, unknown key, non-string keys, null list elements, hostile strings: invalid regex/cron/signal, YAML 1.1 booleans, 70 kB strings, unicode); a quarter additionally byte-mutated; raw random bytes; deeply nested documents (50-20000 levels); a hand-written corpus aimed at every hand-coded type switch. Each document goes, inside a child process that logs BEGIN/END around it, through dag.LoadYAML, LoadMetadata, LoadWithoutEval, (safe-pool strings only) Load and Load with the document as base configuration, DAGStore.GetMetadata/GetDetails/List/Grep/TagList/UpdateSpec, client.GetStatus/GetAllStatus, and the scheduler daemon's directory scan + one tick. Refuted by: a panic (caught per call, keyed by the innermost blackdagger frame) or process death, a call that does not return in 30 s, an accepted definition with a step without name / with nothing to execute, a schedule entry that is not parsed or not parseable, an unknown signalOnStop, a status (model.NewStatus) that cannot be JSON-encoded, read back and re-encoded identically; EvalConditions panicking; for accepted definitions whose steps are harmless (true/false/echo/sh, no repeat, no mail) the real Agent.Run over a real history store: panic, served status not encodable, run file present but not readable back with the request id and a final status. Non-trivial & distinct = distinct document texts.",
+		Rule:        "Documents: valid definitions drawn from a grammar (plus a sub-grammar of quickly executable command-only definitions, a third of them with one mutation, so that the executed subset is large) covering every documented field (schedule in its three forms, env list/map, params, logDir, handlers, functions/call, sub-workflow, executor string/map/nested config, preconditions incl. re:, retry/repeat/continueOn, signalOnStop, mail/smtp, limits); 1-3 structural mutations of such a tree (type confusion scalar/list/map/null, delete, duplicate key, wrap in list/map, unknown key, non-string keys, null list elements, hostile strings: invalid regex/cron/signal, YAML 1.1 booleans, 70 kB strings, unicode); a quarter additionally byte-mutated; raw random bytes; deeply nested documents (50-20000 levels); a hand-written corpus aimed at every hand-coded type switch. Each document goes, inside a child process that logs BEGIN/END around it, through dag.LoadYAML, LoadMetadata, LoadWithoutEval, (safe-pool strings only) Load and Load with the document as base configuration, DAGStore.GetMetadata/GetDetails/List/Grep/TagList/UpdateSpec, client.GetStatus/GetAllStatus, and the scheduler daemon (directory scan, one tick, then the same document created and rewritten while the directory watcher runs, and another tick). Refuted by: a panic (caught per call, keyed by the innermost blackdagger frame) or process death, a call that does not return in 30 s, an accepted definition with a step without name / with nothing to execute, a schedule entry that is not parsed or not parseable, an unknown signalOnStop, a status (model.NewStatus) that cannot be JSON-encoded, read back and re-encoded identically; EvalConditions panicking; for accepted definitions whose steps are harmless (true/false/echo/sh, no repeat, no mail) the real Agent.Run over a real history store: panic, served status not encodable, run file present but not readable back with the request id and a final status. Non-trivial & distinct = distinct document texts.",
 		Assumptions: []string{"commands that an evaluating load may execute resolve only inside a scratch bin directory (sh, echo, true, false)", "the executed subset is restricted to harmless short steps; a run that exceeds 20 s is counted, not judged"}})
 }
